@@ -287,7 +287,8 @@ def install(names=None):
             rec("C08", "split", "events", not missing and not extra,
                 {"duration": d0, "caps": caps[:8], "missing": missing[:4], "extra": extra[:4],
                  "final_tick_is_boundary": d0 in psum, "n_missing": len(missing),
-                 "n_missing_on_final_tick": sum(1 for m in missing if m[0] == d0)})
+                 "n_missing_on_final_tick": sum(1 for m in missing if m[0] == d0),
+                 "n_missing_signatures_on_final_tick": sum(1 for m in missing if m[0] == d0 and m[1] in (orc.TS, orc.KS))})
             timed, d = view_rel(self)
             rec("C08", "split", "source_unchanged", events(timed) == ev0 and d == d0, None)
             ids = set(id(m) for m in self._messages)
